@@ -429,8 +429,9 @@ func (vc *VC) dispatchCall2(st *State, call *ast.CallExpr, recv *Term, args []Te
 		vc.havocHeap(st, key)
 	} else if vc.externalValueOnly(fn, call) {
 		// a package-level library function given only numbers and strings holds no reference
-		// to any slice, map or box of the program: element arrays keep their contents
-		vc.havocLibraryFields(st)
+		// to any slice, map or box of the program: element arrays keep their contents, and the
+		// only objects it can write are those of its own package
+		vc.havocPackageFields(st, fn.Pkg().Path())
 	} else {
 		vc.havocExternalHeap(st)
 	}
@@ -783,7 +784,7 @@ func (vc *VC) contractCall(st *State, call *ast.CallExpr, c *FuncContract, fn *t
 		if vc.externalMayTouchRqlite(fn, call) {
 			vc.havocHeap(st, c.Key)
 		} else if vc.externalValueOnly(fn, call) {
-			vc.havocLibraryFields(st)
+			vc.havocPackageFields(st, fn.Pkg().Path())
 		} else {
 			vc.havocExternalHeap(st)
 		}
